@@ -30,6 +30,10 @@ type node struct {
 	Name xml.Name
 	Attr map[xml.Name]string
 	Kids []kid
+	// Declared: handed over as tokens the way hand-written token streams often
+	// are - an unqualified name plus an xmlns attribute naming the namespace -
+	// instead of a qualified name (the elements below it likewise)
+	Declared bool
 }
 
 func el(space, local string, kids ...kid) *node {
@@ -136,6 +140,10 @@ func sameAttrs(a, b map[xml.Name]string) bool {
 // hand to the library (attributes in sorted order).
 func (n *node) tokens() []xml.Token {
 	start := xml.StartElement{Name: n.Name}
+	if n.Declared && n.Name.Space != "" {
+		start.Name.Space = ""
+		start.Attr = append(start.Attr, xml.Attr{Name: xml.Name{Local: "xmlns"}, Value: n.Name.Space})
+	}
 	names := make([]xml.Name, 0, len(n.Attr))
 	for k := range n.Attr {
 		names = append(names, k)
